@@ -485,6 +485,7 @@ Lemma node_step_lin fo i k st x pc :
   (l_close i <> None -> (if l_open i then m_prev x :: m_stack x else m_stack x) <> []) ->
   match item_effect fo i x with
   | Ok x1 => exists st1, node_step fo st pc (l_name i) (lin_tail_str i ++ k) = Ok st1 /\ Rel st1 x1
+                         /\ (m_stack x1 = [] -> (m_stack x = [] -> s_recipes st = []) -> s_recipes st1 = [])
   | Err e => node_step fo st pc (l_name i) (lin_tail_str i ++ k) = Err e
   end.
 Proof.
@@ -493,12 +494,12 @@ Proof.
   rewrite node_step_eq. unfold item_effect.
   (* 142-148 *)
   set (stack0 := if l_open i then m_prev x :: m_stack x else m_stack x).
-  assert (Hopened : exists rc, opened st pc = Ok (negb (is_nil stack0), rev stack0, rc)).
+  assert (Hopened : exists rc, opened st pc = Ok (negb (is_nil stack0), rev stack0, rc) /\ (l_open i = false -> rc = s_recipes st)).
   { unfold opened, stack0. rewrite Hpc. destruct (l_open i).
     - destruct (m_prev x) as [p|] eqn:Ep; [|now elim Hop]. destruct (Rpb p eq_refl) as [_ Ha].
-      destruct (s_attributes st) as [a0|]; [|contradiction]. cbn [of_option bind]. eexists. rewrite Rba, Rp. reflexivity.
-    - eexists. rewrite Rbr, Rba. reflexivity. }
-  destruct Hopened as (rc & ->). cbn [bind].
+      destruct (s_attributes st) as [a0|]; [|contradiction]. cbn [of_option bind]. eexists. rewrite Rba, Rp. split; [reflexivity|discriminate].
+    - eexists. rewrite Rbr, Rba. split; reflexivity. }
+  destruct Hopened as (rc & -> & Hrc0). cbn [bind].
   (* 150-200 *)
   destruct (scan_lin fo i k (s_current st) (s_cycle st) Hok Hk) as (xr & rdx & Escan & Sr & Ebond).
   rewrite Escan. cbn [bind]. rewrite Ebond. cbn [bind].
@@ -513,9 +514,9 @@ Proof.
                                 match rev (rev stack0) with
                                 | [] => Err EIndex
                                 | k0 :: _ => Ok (rec_append k0 (Z.of_nat (mult_val (l_mult i)), a, s_pbo st) rc)
-                                end else Ok rc) = Ok rc').
-  { rewrite rev_involutive. destruct stack0; cbn; eexists; reflexivity. }
-  destruct Hrec as (rc' & ->). cbn [bind].
+                                end else Ok rc) = Ok rc' /\ (stack0 = [] -> rc' = rc)).
+  { rewrite rev_involutive. destruct stack0; cbn; eexists; (split; [reflexivity|]); [reflexivity|discriminate]. }
+  destruct Hrec as (rc' & -> & Hrc1). cbn [bind].
   (* 228-250 *)
   rewrite Rcy, Rc in Sr. rewrite Rg, Rc, Rp.
   assert (Hpp : forall p, m_prev x = Some p -> s_pbo st = Some (m_pend x)) by (intros p Hp'; now destruct (Rpb p Hp')).
@@ -538,12 +539,17 @@ Proof.
   destruct (l_close i) as [a'|] eqn:Ecl; cbn [is_some].
   - destruct stack0 as [|top stk] eqn:Es; [exfalso; apply Hst; [discriminate|exact Es]|].
     rewrite (close_lin fo i a' k _ top stk Hok Ecl Hk) by reflexivity.
-    eexists. split; [reflexivity|]. unfold Rel, closed_state. cbn.
-    repeat split; try reflexivity; try assumption.
-    + destruct stk as [|s0 t0]; [reflexivity|]. cbn [rev]. destruct (rev t0); reflexivity.
-    + rewrite Hc. now destruct a'.
-    + discriminate.
-  - eexists. split; [reflexivity|]. unfold Rel. cbn. repeat split; try reflexivity; try assumption. discriminate.
+    eexists. split; [reflexivity|]. split.
+    + unfold Rel, closed_state. cbn.
+      repeat split; try reflexivity; try assumption.
+      * destruct stk as [|s0 t0]; [reflexivity|]. cbn [rev]. destruct (rev t0); reflexivity.
+      * rewrite Hc. now destruct a'.
+      * discriminate.
+    + cbn [m_stack closed_state s_recipes]. intros -> _. reflexivity.
+  - eexists. split; [reflexivity|]. split.
+    + unfold Rel. cbn. repeat split; try reflexivity; try assumption. discriminate.
+    + cbn [m_stack s_recipes]. intros Es H0. rewrite (Hrc1 Es). unfold stack0 in Es. destruct (l_open i); [discriminate|].
+      rewrite (Hrc0 eq_refl). now apply H0.
 Qed.
 
 (** ** invariants of the machine that the induction needs *)
@@ -640,7 +646,7 @@ Proof.
       destruct (l_close i); [|contradiction]. destruct (m_stack x); [discriminate|discriminate]. }
     pose proof (node_step_lin fo i k st x _ Hoki Hk HR Hpc' Hop Hst) as Hstep.
     destruct (item_effect fo i x) as [x1|e] eqn:Eeff; cbn [bind].
-    + destruct Hstep as (st1 & -> & HR1). cbn [bind].
+    + destruct Hstep as (st1 & -> & HR1 & _). cbn [bind].
       destruct (item_effect_inv fo i x x1 Hoki Eeff Hs Hop) as (Hs1 & Hp1 & Hd1).
       assert (Hdt : lin_depth (length (m_stack x1)) t = true).
       { cbn [lin_depth] in Hd. cbv zeta in Hd1. destruct (l_close i).
